@@ -112,9 +112,6 @@ func (e *effPL) user(u string) int64 {
 }
 
 func (e *effPL) event(t string) int64 {
-	if t == "m.room.third_party_invite" {
-		return e.thr["invite"]
-	}
 	if l, ok := e.events[t]; ok {
 		return l
 	}
